@@ -251,6 +251,44 @@ func ruleR2_7(w *World, r *Report) {
 		n++
 		key := w.FuncName(fn) + " checks its unit literals against each other"
 		h := unitConsistencyLoop(w, fn)
+		if h == nil {
+			// the loop may live in a helper of the front-end (`if !pb.bindUnits() { return &pb }`): its call stands
+			// for the loop
+			handled := false
+			for _, ci := range callsIn(fn) {
+				hf := ci.Common().StaticCallee()
+				if hf == nil || w.PkgName(hf) != "solver" || hf == fn || isSimplifier(hf) {
+					continue
+				}
+				hh := unitConsistencyLoop(w, hf)
+				if hh == nil {
+					continue
+				}
+				handled = true
+				before := ci.Block() != simp.Block() && ci.Block().Dominates(simp.Block())
+				if ci.Block() == simp.Block() {
+					for _, ins := range ci.Block().Instrs {
+						if ins == ssa.Instruction(ci) {
+							before = true
+						}
+						if ins == ssa.Instruction(simp) {
+							break
+						}
+					}
+				}
+				if !before {
+					r.Bad("R2.7", key, w.InstrPos(simp), "the simplifier can run on a path that has not checked the unit literals")
+				} else if why := conflictTableWrong(w, hf, hh); why != "" {
+					r.Bad("R2.7", key, w.InstrPos(simp), why)
+				} else {
+					r.OK("R2.7", key, w.InstrPos(simp), "consistency loop over Units (in "+w.FuncName(hf)+") runs before the simplifier; Unsat exactly when the variable is bound with the other sign")
+				}
+				break
+			}
+			if handled {
+				continue
+			}
+		}
 		switch {
 		case h == nil:
 			r.Bad("R2.7", key, w.InstrPos(simp), "unit literals are collected and handed to the simplifier without the loop that binds them and answers Unsat on two opposite units: the simplifier copies units into the model without comparing them, so `x` and `not x` together are read as satisfiable")
